@@ -193,6 +193,10 @@ func selftestSeeded(ids []string) int {
 			missed++
 		}
 		fmt.Printf("%-8s %s: %s %s\n", e.Name(), meta.Property, status, clause)
+		if code != 1 && code != 0 {
+			// machinery trouble on a patched copy: show what the check printed
+			fmt.Printf("---- output of the check (exit %d) ----\n%s\n----\n", code, tail(out, 6000))
+		}
 	}
 	// replay files written by these runs describe patched copies, not /repo
 	if fs, _ := filepath.Glob(filepath.Join(verifDir, "replays", "*.json")); len(fs) > 0 && os.Getenv("VERIF_KEEP_REPLAYS") == "" {
